@@ -128,6 +128,10 @@ func prePost(cmd string) (string, string) {
 		return "NOOP ", ""
 	case "XUNK-lit":
 		return "XYZZY ", ""
+	case "TAG-lit":
+		return "", ""
+	case "UID-lit":
+		return "UID ", ""
 	}
 	panic("unknown unit " + cmd)
 }
@@ -449,6 +453,19 @@ func runCase(cs *caseT, enc *json.Encoder, emu *sync.Mutex, out *vh.Out, rng *ra
 			uu := u
 			p.origin = &uu
 		}
+		if i > 0 && (u.Cmd == "TAG-lit" || u.Cmd == "UID-lit") {
+			// a line without a command name is one the server may answer by closing without a word: whether a close
+			// seen then is that answer or a late sign of the previous unit must be settled BEFORE the line is sent -
+			// the server has either closed by now, or it has read everything and waits for more
+			for k := 0; k < 20000 && !p.conn.PeerClosed() && !p.conn.PeerBlockedInRead(); k++ {
+				time.Sleep(50 * time.Microsecond)
+			}
+			if p.conn.PeerClosed() {
+				recs[len(recs)-1].(map[string]interface{})["closed"] = true
+				alive = false
+				break
+			}
+		}
 		res := p.runUnit(u)
 		units++
 		cut := caseT{Start: cs.Start, Units: cs.Units[:i+1]}
@@ -476,7 +493,10 @@ func runCase(cs *caseT, enc *json.Encoder, emu *sync.Mutex, out *vh.Out, rng *ra
 		if res.Stall {
 			out.Mismatch(sigOf("stall", u), "no tagged completion and no continuation request within 3 s while the connection stays open", cut)
 		}
-		if res.Closed && res.Obs.Tagged == "NONE" && res.Obs.Cont == 0 && res.Obs.Call == "none" && i > 0 && res.Smuggle == "" {
+		// (a line without a command name is one the server may answer by closing without a word: that close is the
+		// reaction to this unit, not a late sign of the previous one)
+		if res.Closed && res.Obs.Tagged == "NONE" && res.Obs.Cont == 0 && res.Obs.Call == "none" && i > 0 && res.Smuggle == "" &&
+			u.Cmd != "TAG-lit" && u.Cmd != "UID-lit" {
 			// EOF before a single byte of reaction: the server closed the connection after
 			// answering the previous unit (the close became visible only now)
 			recs[len(recs)-1].(map[string]interface{})["closed"] = true
@@ -640,7 +660,7 @@ func main() {
 		var emu sync.Mutex
 		rng := rand.New(rand.NewSource(*seed))
 		cmds := []string{"LOGIN-user", "LOGIN-pass", "CREATE", "RENAME-new", "LIST-pat", "SEARCH-str", "FETCH-hdr", "APPEND", "NOOP-lit", "XUNK-lit", "NOOP", "AUTH-CANCEL", "IDLE", "AUTH-FINAL",
-			"APPEND-fail", "APPEND-panic"}
+			"APPEND-fail", "APPEND-panic", "TAG-lit", "UID-lit"}
 		nUnits := 0
 		for t := 0; t < *traces; t++ {
 			cs := &caseT{Start: startT{LitPlus: rng.Intn(2) == 0, State: []string{"notauth", "auth"}[rng.Intn(2)]}}
@@ -660,7 +680,7 @@ func main() {
 						u.Size = "small"
 					}
 					u.Payload = []string{"benign", "smuggle"}[rng.Intn(2)]
-					if u.Form == "quoted" && (strings.HasPrefix(u.Cmd, "APPEND") || u.Cmd == "NOOP-lit" || u.Cmd == "XUNK-lit") {
+					if u.Form == "quoted" && (strings.HasPrefix(u.Cmd, "APPEND") || strings.HasSuffix(u.Cmd, "-lit")) {
 						u.Form = "sync"
 					}
 					if u.Cmd == "APPEND-fail" || u.Cmd == "APPEND-panic" {
